@@ -782,7 +782,13 @@ TOP:
 				ea = append(ea, ea2...)
 				return
 			}
-			mva := fd.method.Call(args)
+			var mva []reflect.Value
+			if method.Type().IsVariadic() {
+				// The last argument is the slice of the variadic parameter.
+				mva = fd.method.CallSlice(args)
+			} else {
+				mva = fd.method.Call(args)
+			}
 			switch len(mva) {
 			case 1:
 				value = mva[0].Interface()
